@@ -430,7 +430,7 @@ pub fn run(ctx: &mut Ctx) {
         }
     });
     // compiled joins (seconds each): single evaluator and three parties
-    let total = ctx.q(48, 1200);
+    let total = ctx.q(32, 1200);
     ctx.cases("compiled", total, |ctx, idx| {
         let jt = JTS[(idx % 4) as usize];
         let masked = (idx / 4) % 3 == 2;
